@@ -8,14 +8,14 @@ CONSTANTS
   Nil = Nil
   MCConf <- ConfConc
   MCKeys <- KeysTwo
-  CostSet = {1, 2}
+  CostSet = {1}
   TtlSet = {0}
-  MaxCostSet = {2}
+  MaxCostSet = {1}
   SetMaxSet = {1}
   AdvSet = {}
   Budget = 2
-  Ops = {"insert", "remove", "get", "wait", "clear"}
+  Ops = {"insert", "remove", "wait", "clear"}
   TickOn = FALSE
   MaxNow = 0
-INVARIANTS UsedIsSum Bounded Agree Conservation NeverTwice NothingLost ResidentOwned IndexExact NoOrphan MetricsLaws
+INVARIANTS UsedIsSum Bounded Agree Conservation NeverTwice NothingLost ResidentOwned IndexExact NoOrphan MetricsLaws MetricsCounts NoLoss CondNeverCreates ClearEmpties ChargeFormula
 CHECK_DEADLOCK FALSE
